@@ -64,4 +64,5 @@ struct _ctx {
 };
 
 m_ctx_t *m_ctx(void);
+bool ctx_is_current(const m_ctx_t *c);
 void ctx_logger(const m_ctx_t *c, const m_mod_t *mod, const char *fmt, ...);
